@@ -630,6 +630,10 @@ def run(ctx):
     for msg in sorted(DRIFT):
         ctx.drift_note(msg)
 
+    # ---- 4b. special values: inf / -inf / nan entries under every operation form (VecSpecial, "all element values") ----
+    from ..extras import vecspecial
+    vecspecial.run_stage(ctx)
+
     # ---- 5. harvest: lincomb calls made inside the repository's own tests (hook ODL_VERIF_TRACE) ----
     from .. import harvest as H
     for sig, detail in H.harvest(ctx, {'lincomb'}, H.QUICK_MODULES if quick else H.THOROUGH_MODULES,
@@ -640,6 +644,9 @@ def run(ctx):
 
 def replay(body):
     d = body['detail']
+    if d.get('stage_kind'):                 # special-values stage (harness/extras/vecspecial.py)
+        from ..extras import vecspecial
+        return vecspecial.replay(body)
     combo = tuple(d['concretisation'])
     if d.get('stage') == 'replay':
         case = d['case']
